@@ -31,7 +31,7 @@ from abc import ABC, abstractmethod
 import re
 
 from fim.slivers.capacities_labels import Capacities, CapacityHints, Labels, ReservationInfo, StructuralInfo, Flags
-from fim.slivers.delegations import Delegations
+from fim.slivers.delegations import Delegations, DelegationType
 from fim.slivers.tags import Tags
 from fim.slivers.json_data import MeasurementData, UserData, LayoutData
 from fim.slivers.topology_diff import TopologyDiff, WhatsModifiedFlag
@@ -121,6 +121,7 @@ class BaseSliver(ABC):
 
     def set_capacity_delegations(self, cdel: Delegations):
         assert(cdel is None or isinstance(cdel, Delegations))
+        assert(cdel is None or cdel.type == DelegationType.CAPACITY)
         self.capacity_delegations = cdel
 
     def get_capacity_delegations(self) -> Delegations:
@@ -128,6 +129,7 @@ class BaseSliver(ABC):
 
     def set_label_delegations(self, ldel: Delegations):
         assert(ldel is None or isinstance(ldel, Delegations))
+        assert(ldel is None or ldel.type == DelegationType.LABEL)
         self.label_delegations = ldel
 
     def get_label_delegations(self) -> Delegations:
@@ -371,7 +373,9 @@ class BaseSliverWithDelegation(BaseSliver):
         self.label_delegations = None
 
     def set_capacity_delegations(self, cap_del) -> None:
+        assert(cap_del is None or cap_del.type == DelegationType.CAPACITY)
         self.capacity_delegations = cap_del
 
     def set_label_delegations(self, lab_del) -> None:
+        assert(lab_del is None or lab_del.type == DelegationType.LABEL)
         self.label_delegations = lab_del
